@@ -123,6 +123,10 @@ def run(level='quick'):
         cmp('isspace %r' % c, _pad(c, 1).isspace(), c.isspace())
     for s in ['', 'a', 'a\n', 'a\r\nb', '\r', '\n\r', 'a\x0bb', 'a ', 'ab\rc\n', '\r\n\r\n']:
         cmp('splitlines %r' % s, BStr.lit(s).splitlines(), s.splitlines())
+    for s in ['', ' ', 'a', ' a', 'a ', ' a b \t', '\n\n', '\ta\x0b', 'a\\ ', '\u2003x\u2003']:
+        cmp('strip %r' % s, _pad(s, 2).strip(), s.strip())
+        cmp('lstrip %r' % s, _pad(s, 2).lstrip(), s.lstrip())
+        cmp('rstrip %r' % s, _pad(s, 2).rstrip(), s.rstrip())
     for s in ['', 'abc', 'a\x7f']:
         cmp('encode ascii %r' % s, BStr.lit(s).encode('ascii'), s.encode('ascii'))
         cmp('decode ascii %r' % s, BStr.lit(s.encode()).decode('ascii'), s)
